@@ -190,28 +190,69 @@ def extra_checks(rng, tier, cov):
     before = _snapshot()
     n = 3000 if tier == 'thorough' else 400
     calls = 0
+    import warnings
+    from sugar.data import gcode
+
+    def light(t):      # cheap per-call fingerprint of one shared table
+        gc = gcode(t)
+        return (len(gc.tt), len(gc.starts), len(gc.stops), len(gc.astarts), len(gc.astops), sum(len(v) for v in gc.ttinv.values()),
+                len(gc.ttinv), len(vars(gc)))
+    first_change = None
     for _ in range(n):
         s = ''.join(rng.choice('ACGTUN-RY') for _ in range(rng.randrange(0, 40)))
+        if rng.random() < .3:      # an open reading frame without final stop, DNA or RNA spelling
+            s = ''.join(rng.choice(['GCT', 'AAA', 'GGN', 'CTR', 'ATG', 'TTY']) for _ in range(rng.randrange(1, 8)))
+            if rng.random() < .5:
+                s = s.replace('T', 'U')
         tt = rng.choice(IDS)
-        try:
-            translate(s, complete=rng.random() < .5, check_start=rng.choice([None, False]), final_stop=rng.choice([None, True, False]),
-                      astop=rng.choice('X*?'), tt=tt, warn=False)
+        kw = dict(complete=rng.random() < .5, check_start=rng.choice([None, False, True]), check_stop=rng.random() < .3,
+                  final_stop=rng.choice([None, True, False]), astop=rng.choice('X*?'), tt=tt, warn=rng.random() < .5)
+        l0 = light(tt)
+        with warnings.catch_warnings():
+            warnings.simplefilter('ignore')
+            try:
+                translate(s, **kw)
+                calls += 1
+            except (ValueError, KeyError):
+                calls += 1
+            try:
+                q = BioSeq(s.replace('N', 'A').replace('R', 'G').replace('Y', 'C'))
+                q.copy().translate(complete=True, tt=tt)
+                q.find_orfs(rf='both')
+                q.matchall('stop', rf='both')
+                BioBasket([q]).copy().translate(complete=True, check_start=False, tt=tt)
+                calls += 4
+            except (ValueError, KeyError):
+                pass
+        if first_change is None and light(tt) != l0:
+            first_change = {'table': tt, 'seq': s, 'translate_options': {k: v for k, v in kw.items() if k != 'tt'}}
+    # a copy handed out by the library is the caller's own: customising it in place must not reach the shared table
+    import copy as _copy
+    for t in IDS:
+        for how in ('Attr.copy', 'deepcopy'):
+            mine = gcode(t).copy() if how == 'Attr.copy' else _copy.deepcopy(gcode(t))
+            l0 = light(t)
+            mine.starts.add('NNN'); mine.stops.add('NNN'); mine.astarts.add('NNN'); mine.astops.add('NNN')
+            mine.starts.discard('ATG'); mine.stops.intersection_update({'TAA'})
+            mine.tt['NNN'] = '?'; mine.tt.pop('AAA', None)
+            for k in list(mine.ttinv):
+                mine.ttinv[k].add('NNN')
+            mine.ttinv['?'] = {'NNN'}
+            mine.name = 'customised'
             calls += 1
-            q = BioSeq(s.replace('N', 'A').replace('R', 'G').replace('Y', 'C'))
-            q.copy().translate(complete=True, tt=tt)
-            q.find_orfs(rf='both')
-            q.matchall('stop', rf='both')
-            BioBasket([q]).copy().translate(complete=True, check_start=False, tt=tt)
-            calls += 4
-        except (ValueError, KeyError):
-            pass
+            if first_change is None and light(t) != l0:
+                first_change = {'table': t, 'customised_in_place': how}
     after = _snapshot()
     cov['history_calls'] = calls
     cov['tables_snapshotted'] = len(before)
     for t in IDS:
         if before[t] != after[t]:
-            yield {'case': {'table': t, 'calls': calls}, 'impl': None, 'noshrink': True,
-                   'spec': 'history clause: gcode(%d) changed after %d library calls' % (t, calls)}
+            case = {'table': t, 'calls': calls}
+            if first_change and first_change['table'] == t:
+                case.update(first_change)
+            yield {'case': case, 'impl': None, 'noshrink': True,
+                   'spec': 'history clause: gcode(%d) changed after %d library calls%s' % (
+                       t, calls, ' (first seen after %r)' % (first_change,) if first_change and first_change['table'] == t else '')}
 
 
 def search_cases(broken, rng):
